@@ -743,8 +743,74 @@ pub enum Expect {
 }
 
 /// Check a written Dwarf against the model. Returns statistics through cx labels.
+/// The structure as the writing interface reports it back before anything is written (unit table, entries, parents,
+/// children in insertion order, attributes in the order they were first set), and edits that cancel out (an attribute
+/// added and deleted again, a value replaced and restored through the mutable accessors).
+fn check_built_accessors(m: &WDwarf, b: &mut Built, tag: &str) -> R {
+    ensure_eq!(b.dwarf.units.count(), m.units.len(), format!("{}/built/unit-count", tag));
+    for (ui, id) in b.unit_ids.iter().enumerate() {
+        ensure!(b.dwarf.units.id(ui) == *id, format!("{}/built/unit-id", tag), "unit {}", ui);
+    }
+    let order: Vec<w::UnitId> = b.dwarf.units.iter().map(|(id, _)| id).collect();
+    ensure!(order == b.unit_ids, format!("{}/built/unit-iter", tag), "");
+    for (ui, mu) in m.units.iter().enumerate() {
+        let uid = b.unit_ids[ui];
+        let ids = b.entry_ids[ui].clone();
+        ensure!(b.dwarf.units.get(uid).root() == ids[0], format!("{}/built/root", tag), "unit {}", ui);
+        ensure_eq!(b.dwarf.units.get(uid).encoding(), mu.encoding(), format!("{}/built/encoding", tag), "unit {}", ui);
+        for (ei, me) in mu.entries.iter().enumerate() {
+            if me.never_added {
+                continue;
+            }
+            let unit = b.dwarf.units.get(uid);
+            let e = unit.get(ids[ei]);
+            ensure!(e.id() == ids[ei], format!("{}/built/entry-id", tag), "unit {} entry {}", ui, ei);
+            let want_parent = if ei == 0 { None } else { Some(ids[me.parent]) };
+            ensure!(e.parent() == want_parent, format!("{}/built/parent", tag), "unit {} entry {}", ui, ei);
+            ensure_eq!(e.tag().0, if ei == 0 { 0x11 } else { me.tag }, format!("{}/built/tag", tag), "unit {} entry {}", ui, ei);
+            ensure_eq!(e.sibling(), me.sibling, format!("{}/built/sibling-flag", tag), "unit {} entry {}", ui, ei);
+            let want_children: Vec<w::UnitEntryId> = (1..mu.entries.len()).filter(|k| mu.entries[*k].parent == ei && !mu.entries[*k].never_added).map(|k| ids[k]).collect();
+            let got_children: Vec<w::UnitEntryId> = e.children().copied().collect();
+            ensure!(got_children == want_children, format!("{}/built/children", tag), "unit {} entry {}: {} children reported, {} added", ui, ei, got_children.len(), want_children.len());
+            let mut want_names: Vec<u16> = vec![AT_MARKER];
+            for (n, _) in &me.attrs {
+                if !want_names.contains(n) {
+                    want_names.push(*n);
+                }
+            }
+            let got_names: Vec<u16> = e.attrs().map(|a| a.name().0).collect();
+            ensure_eq!(got_names, want_names, format!("{}/built/attribute-names", tag), "unit {} entry {}", ui, ei);
+            for n in &want_names {
+                ensure!(e.get(gimli::DwAt(*n)).is_some(), format!("{}/built/get", tag), "unit {} entry {} attribute {:#x}", ui, ei, n);
+            }
+            ensure!(e.get(gimli::DwAt(0x3ffe)).is_none(), format!("{}/built/get-phantom", tag), "unit {} entry {}", ui, ei);
+            ensure_eq!(e.get(gimli::DwAt(AT_MARKER)), Some(&w::AttributeValue::Udata(marker_of(ui, ei))), format!("{}/built/get-value", tag), "unit {} entry {}", ui, ei);
+            // edits that cancel out
+            if (ui + ei) % 3 == 0 {
+                let unit = b.dwarf.units.get_mut(uid);
+                let e = unit.get_mut(ids[ei]);
+                e.set(gimli::DwAt(0x3ffe), w::AttributeValue::Udata(99));
+                e.delete(gimli::DwAt(0x3ffe));
+                if let Some(v) = e.get_mut(gimli::DwAt(AT_MARKER)) {
+                    *v = w::AttributeValue::Udata(0);
+                }
+                for a in e.attrs_mut() {
+                    if a.name().0 == AT_MARKER {
+                        ensure_eq!(a.get(), &w::AttributeValue::Udata(0), format!("{}/built/get_mut-not-stored", tag), "unit {} entry {}", ui, ei);
+                        a.set(w::AttributeValue::Udata(marker_of(ui, ei)));
+                    }
+                }
+                let got_names: Vec<u16> = e.attrs().map(|a| a.name().0).collect();
+                ensure_eq!(got_names, want_names, format!("{}/built/attribute-names-after-edits", tag), "unit {} entry {}", ui, ei);
+            }
+        }
+    }
+    Ok(())
+}
+
 pub fn check_written(m: &WDwarf, expect: &Expect, cx: &mut Ctx, tag: &str) -> R {
     let mut built = build(m);
+    check_built_accessors(m, &mut built, tag)?;
     let ws = match write_sections(&mut built, m.big) {
         Ok(ws) => {
             if let Expect::MustFail(why) = expect {
